@@ -438,7 +438,7 @@ def rule_eoi_gcov(ctx):
             if text_rule is None or text_rule not in g.rules:
                 ctx.gap("PANIC-NUMLANG", "%s:%s(%s)" % (which, parser, rule), ctx.site(it.parsers[parser]), "cannot tell which pair's text is converted to %s" % target)
                 continue
-            lang = R.from_pest(g.rules[text_rule]["expr"], g.rules)
+            lang = R.rule_language(text_rule, g.rules)   # a non-atomic rule admits blanks and comments inside the pair's text
             digits = R.plus(R.cls(R.DIGIT))
             ref = digits if target.startswith("u") else R.seq(R.opt(R.lit("-")), digits)
             w = R.subset_witness(lang, ref)
